@@ -355,9 +355,19 @@ def run(ctx, pid):
 
     # ---- 1. bounded model of the mechanism (design satisfies the monitors; tolerances calibrated)
     if pid == "C07":
-        r = ctx.model_check("MC_OIBook", cfg="MC_OIBook" if q else "MC_OIBook_thorough", workers=8,
-                            timeout=1500, coverage=False)
+        r = ctx.model_check("MC_OIBook", cfg="MC_OIBook", workers=8, timeout=1500, coverage=False)
         scripts = r.tagged("T")
+        if not q:
+            # long behaviours (up to 40 operations): TLC simulation of the same model, bounded by wall time
+            sim = ctx.model_check("MC_OIBook", cfg="MC_OIBook_sim", workers=8, timeout=900, coverage=False,
+                                  simulate="num=100000000", count=False,
+                                  env={"JAVA_TOOL_OPTIONS": "-Xss1g -Dtlc2.TLC.stopAfter=240"})
+            m = [l for l in sim.raw.splitlines() if l.startswith("The number of states generated:")]
+            need(m, "MC_OIBook simulation did not report its state count")
+            ctx.transitions += int(m[-1].split(":")[1].strip().replace(",", ""))
+            long_scripts = sim.tagged("T")[:600]
+            need(len(long_scripts) >= 50, "MC_OIBook simulation printed only %d scripts" % len(long_scripts))
+            scripts = scripts + long_scripts
         need(len(scripts) >= 20, "MC_OIBook printed only %d scripts" % len(scripts))
         kinds = collections.Counter(o["op"] for s in scripts for o in s["ops"])
         need(kinds["increase"] and kinds["decrease"] and kinds["price"], "MC_OIBook scripts lack an operation kind: %s" % dict(kinds))
